@@ -324,16 +324,18 @@ Lemma new_loop_Inv : forall os sigs st i x r g' x',
   Inv (mkSt g' (upd (insts st) i x') false) /\ i_alive x' = true /\ i_clones x' = i_clones x /\ (r = ROk \/ rejected r).
 Proof.
   induction sigs as [|n sigs IH]; intros st i x r g' x' I Hx A H; cbn [new_loop] in H.
-  - inversion H; subst. rewrite (upd_same _ _ _ Hx), (state_eta st (inv_dead _ I)). auto.
+  - inversion H; subst. rewrite (upd_same _ _ _ Hx), (state_eta st (inv_dead _ I)).
+    split; [exact I|]. split; [exact A|]. split; [reflexivity|left; reflexivity].
   - rewrite add_closed in H.
     destruct (add_spec os (g st) x n) as [[o g1] x1] eqn:Ha.
     assert (G : gone_b x = false) by (unfold gone_b; now rewrite A).
     pose proof (Inv_trans _ _ _ _ _ I Hx (add_spec_trans _ _ _ _ _ _ _ Ha G)) as I1.
     destruct (add_spec_keeps_owners _ _ _ _ _ _ _ Ha) as (A1 & C1 & R1).
     rewrite A in A1.
-    destruct o; try (inversion H; subst; auto; fail).
+    destruct o; try (inversion H; subst; split; [exact I1|]; split; [exact A1|]; split; [exact C1|exact R1]).
     specialize (IH (mkSt g1 (upd (insts st) i x1) false) i x1 r g' x' I1 (nth_upd_eq _ _ _ _ Hx) A1 H).
-    cbn [g insts] in IH. rewrite upd_upd in IH. destruct IH as (P & Q & S & T). repeat split; auto; congruence.
+    cbn [g insts] in IH. rewrite upd_upd in IH. destruct IH as (P & Q & S & T).
+    split; [exact P|]. split; [exact Q|]. split; [congruence|exact T].
 Qed.
 
 (** ** the shape of a step *)
